@@ -32,6 +32,27 @@ var (
 	retryerCh    = make(chan task, capacity)
 )
 
+// retryTasksQueuedUnder remembers, per resource, the rule under which the slot queued its latest reconnection
+// task (guarded by retryerMutex). A task waits in retryerCh for as long as the retryer is behind; when the rule
+// has been replaced meanwhile the task is void: taken for a task of the rule in force, it started the loop of
+// active recovery under a rule with passive recovery - with that rule's recovery interval, which is typically
+// zero - and nothing ever ended it. (The task itself carries no rule: its two fields are written out by position
+// wherever a task is made.)
+var retryTasksQueuedUnder = make(map[string]*Rule)
+
+func noteRetryTaskQueuedUnder(resource string, rule *Rule) {
+	retryerMutex.Lock()
+	retryTasksQueuedUnder[resource] = rule
+	retryerMutex.Unlock()
+}
+
+func retryTaskOfReplacedRule(resource string) bool {
+	retryerMutex.Lock()
+	queuedUnder := retryTasksQueuedUnder[resource]
+	retryerMutex.Unlock()
+	return queuedUnder != nil && queuedUnder != getOutlierRuleOfResource(resource)
+}
+
 func init() {
 	go func() {
 		defer func() {
@@ -40,6 +61,9 @@ func init() {
 			}
 		}()
 		for task := range retryerCh {
+			if retryTaskOfReplacedRule(task.resource) {
+				continue
+			}
 			if retryer := getRetryerOfResource(task.resource); retryer != nil {
 				retryer.scheduleNodes(task.nodes)
 			}
